@@ -137,6 +137,11 @@ pub fn generate(rng: &mut Rng, prop: Prop) -> Scenario {
         for i in 0..n {
             let frag = &payload[bounds[i]..bounds[i + 1]];
             let mut it = Item::new("rec").int("type", ctype as u64).int("ver", ver).bytes("data", frag);
+            if !via_stream && rng.chance(1, 40) {
+                // a TlsRawRecord built by hand: header length field disagreeing with the data
+                it = it.int("hdrlen", *rng.pick(&[0u64, 1, 2, 3, 65535, 16640]));
+                clean = false;
+            }
             it = it.int("_g", gid).int("_gk", i as u64).int("_gn", n as u64);
             ops.push(it);
             if i + 1 < n {
@@ -311,6 +316,8 @@ pub fn execute(scn: &Scenario, ctx: &mut Ctx) {
     let mut opno = 0u64;
     let mut recs_seen = 0u32;
     let mut completed = 0u64;
+    let mut n_model = 0u64;
+    let mut n_prov = 0u64;
 
     for it in &scn.items {
         let reps = it.u_opt("rep").unwrap_or(1).min(2000);
@@ -480,6 +487,10 @@ pub fn execute(scn: &Scenario, ctx: &mut Ctx) {
 
             // ---- refinement: call-by-call comparison
             if let Some(exp) = &expected {
+                n_model += 1;
+                if got.out.is_ok() {
+                    n_prov += 1;
+                }
                 if got.out.class != exp.out.class {
                     ctx.violate(Prop::C07, "defrag-model/result-class", || {
                         format!("op {} ({} type={} len={}): model expects {}, parser answered {}", opno, it.kind, ctype, rec_len, exp.show(), got.show())
@@ -535,6 +546,8 @@ pub fn execute(scn: &Scenario, ctx: &mut Ctx) {
             opno += 1;
         }
     }
+    ctx.count("oracle/model_comparisons", n_model);
+    ctx.count("oracle/provenance_audits", n_prov);
     ctx.count("operations", opno);
     ctx.count("defragmentations_completed", completed);
 }
@@ -650,6 +663,7 @@ fn history_step(ctx: &mut Ctx, group: &mut Option<Group>, it: &Item, ctype: u8, 
             let hdr = TlsRecordHeader { record_type: TlsRecordType(ctype), version: TlsVersion(ver), len: total as u16 };
             let concat = std::mem::take(&mut gr.concat);
             let whole = one(ctx, &concat, &hdr);
+            ctx.count("oracle/split_groups_checked_against_unsplit_payload", 1);
             if let Some(whole) = whole {
                 let same = whole.out.class == got.out.class && whole.out.kind == got.out.kind && whole.msgs == got.msgs && whole.rem == got.rem;
                 let same = same || (is_complete_code(&whole.out) && got.out.is_incomplete());
